@@ -1007,11 +1007,15 @@ class Checker:
             ctx.count(f"{stream}:nodes:{k}", stats[k])
         if has_shadow(before_l):
             ctx.count(f"{stream}:with-shadowed-names")
+        if nontrivial and stream in ("tmpl", "gen", "ops") and rec["printed_after"] != rec["printed_before"]:
+            ctx.sample({"stream": stream, "label": label, "before": rec["printed_before"], "after": rec["printed_after"],
+                        "valuations_checked": rec.get("n_valuations", 0), "value_changed": rec["witness"] is not None})
         self.pending.append(rec)
 
     # -- model
-    def flush(self):
-        """ask the driver for every pending case, compare, attribute value changes"""
+    def flush(self, extra=()):
+        """ask the driver for every pending case (plus `extra` request lines, whose answers are returned),
+        compare, attribute value changes; one driver process for everything"""
         ctx = self.ctx
         recs = self.pending
         self.pending = []
@@ -1036,7 +1040,10 @@ class Checker:
                     reqs.append(json.dumps({"op": "simplify", "fixmod": True, "sizes": ra["sizes"], "preds": ra["preds"],
                                             "body": drop_cfg_writes(ra)["body"]}))
                     owners.append((k, "all"))
-        answers = lean_batch(DRIVER, reqs) if reqs else []
+        extra = list(extra)
+        answers = lean_batch(DRIVER, reqs + extra) if (reqs or extra) else []
+        extra_answers = answers[len(reqs):]
+        answers = answers[: len(reqs)]
         got = {}
         for (k, what), a in zip(owners, answers):
             try:
@@ -1045,6 +1052,7 @@ class Checker:
                 raise InfraError(f"driver answer not JSON: {a[:200]}")
         for k, r in enumerate(recs):
             self.judge(r, got.get(k, {}))
+        return extra_answers
 
     def judge(self, r, ans):
         ctx = self.ctx
@@ -1198,7 +1206,7 @@ def scal(N: size, x: f32[N]):
             ctx.count(f"ops:{name}:applied")
             chk.case(f"{label}:{'+'.join(done)}", "# pipeline on c12.py ops_stream procedure\n" + str(p), p, "ops")
 
-    n = ctx.scale(4, 30)
+    n = ctx.scale(4, 40)
     for t in range(n):
         c1 = r.choice([2, 3, 4])
         c2 = r.choice([2, 4])
@@ -1233,7 +1241,7 @@ def expr_stream(chk, ctx, tmpdir, drv_reqs):
     result is read off the call argument, the model is asked through the `expr` request"""
     r = ctx.rng
     g = Gen(r, use_cfg=False)
-    n = ctx.scale(30, 200)
+    n = ctx.scale(30, 400)
     procs, metas = [], []
     for t in range(n):
         vs = ["n", "a"]
@@ -1321,7 +1329,8 @@ def run(ctx):
                     "DoSimplify/_DoNormalize is modelled only by its effect on the tree"]
 
     # ---- 1. obligations
-    broken = ctx.lean_obligations(["ExoModel.Props.C12"])
+    broken = ctx.lean_obligations(["ExoModel.Props.C12"],
+                                  build_targets=["ExoModel.Props.C12", "ExoModel.SimplifyWire"])  # the driver imports SimplifyWire
 
     chk = Checker(ctx, exo)
     chk.model_gap = []
@@ -1343,7 +1352,7 @@ def run(ctx):
             chk.case(name, proc_source(body), getattr(mod, name), "fixed")
         phase["fixed"] = round(ctx.elapsed(), 1)
         # ---- 2b. templates at the boundary of each rule
-        procs = tmpl_procs(ctx.rng, ctx.scale(40, 240))
+        procs = tmpl_procs(ctx.rng, ctx.scale(40, 480))
         mod, _ = build_module(tmpdir, "c12_tmpl", procs)
         for name, body in procs:
             if name in mod.ERR or not hasattr(mod, name):
@@ -1352,10 +1361,11 @@ def run(ctx):
             chk.case(name, proc_source(body), getattr(mod, name), "tmpl")
         phase["tmpl"] = round(ctx.elapsed(), 1)
         # ---- 2c. generated procedures
-        nproc = ctx.scale(60, 600)
+        nproc = ctx.scale(80, 1200)
         gen = Gen(ctx.rng)
-        batch = 30
+        batch = 20
         made = 0
+        t_gen = ctx.elapsed()
         while made < nproc:
             procs = []
             for k in range(batch):
@@ -1367,7 +1377,7 @@ def run(ctx):
                     continue
                 chk.case(name, proc_source(body), getattr(mod, name), "gen")
             made += batch
-            if ctx.quick and ctx.elapsed() > 100:
+            if ctx.quick and ctx.elapsed() - t_gen > 45:
                 break
         phase["gen"] = round(ctx.elapsed(), 1)
         # ---- 2c. outputs of other scheduling operations
@@ -1376,14 +1386,16 @@ def run(ctx):
         except InfraError:
             raise
         phase["ops"] = round(ctx.elapsed(), 1)
-        chk.flush()
-        phase["model"] = round(ctx.elapsed(), 1)
-
-        # ---- 2d. expression + context requests, printed keys
+        # ---- 2d. expression + context requests, printed keys; 3. Lean semantics vs python evaluator
         drv_reqs = []
         expr_stream(chk, ctx, tmpdir, drv_reqs)
+        phase["expr"] = round(ctx.elapsed(), 1)
+        treqs, texpect = sample_trace_requests(ctx)
+        answers = chk.flush([json.dumps(r) for r, _ in drv_reqs] + treqs)
+        phase["model"] = round(ctx.elapsed(), 1)
+        tanswers = answers[len(drv_reqs):]
+        answers = answers[: len(drv_reqs)]
         if drv_reqs:
-            answers = lean_batch(DRIVER, [json.dumps(r) for r, _ in drv_reqs])
             for (req, meta), a in zip(drv_reqs, answers):
                 a = json.loads(a)
                 if not a.get("ok"):
@@ -1403,10 +1415,8 @@ def run(ctx):
                     chk.model_gap.append(({"label": meta["name"], "source": meta["source"], "stream": "expr",
                                            "printed_after": meta["after_str"]}, a))
 
-        # ---- 3. Lean semantics vs python evaluator on a sample (ties `execB`/`eval` to the oracle of the search)
-        phase["expr"] = round(ctx.elapsed(), 1)
-        sample_trace(chk, ctx)
-        phase["lean-trace"] = round(ctx.elapsed(), 1)
+        sample_trace_judge(ctx, treqs, texpect, tanswers)
+        phase["end"] = round(ctx.elapsed(), 1)
     ctx.extra["phase_end_s"] = phase
 
     # ---- 4. verdicts for theorem / correspondence breaks without a failing input
@@ -1451,8 +1461,9 @@ def replay_one(chk, ctx, tmpdir):
                       no_input=True)
 
 
-def sample_trace(chk, ctx):
-    """the python evaluator and Lean's `execB` on the same trees and valuations"""
+def sample_trace_requests(ctx):
+    """the python evaluator and Lean's `execB` on the same trees and valuations (ties `execB`/`eval`,
+    the subject of the theorems, to the independent oracle of the search)"""
     cases = [r for r in _trace_cases][: ctx.scale(25, 120)]
     reqs, expect = [], []
     for neutral in cases:
@@ -1472,9 +1483,10 @@ def sample_trace(chk, ctx):
             k += 1
             if k >= 3:
                 break
-    if not reqs:
-        return
-    answers = lean_batch(DRIVER, reqs)
+    return reqs, expect
+
+
+def sample_trace_judge(ctx, reqs, expect, answers):
     bad = 0
     for a, (t, c), rq in zip(answers, expect, reqs):
         a = json.loads(a)
